@@ -54,7 +54,7 @@ theorem safe_never_seized :
     (∀ e liqType id w w', NodupIds w → NodupB w → msgLiquidateV2 e liqType id w = some w' → Removes e w w' ∧ KeepsB e w w') ∧
     (∀ e app id w w', NodupIds w → msgLiquidateVaultV1 e app id w = some w' → Removes e w w') :=
   ⟨fun e batch w w' hn hb h => let r := blockV2_rel e batch w w' hn hb h; ⟨r.1, r.2.1⟩,
-   fun e batch w w' hU hn h => (blockV1_rel e batch w w' hU hn h).1,
+   fun e batch w w' hU hn h => blockV1_rel e batch w w' hU hn h,
    fun e t id w w' hn hb h => let r := msgLiquidateV2_rel e t id w w' hn hb h; ⟨r.1, r.2.1⟩,
    fun e a id w w' hn h => (msgLiquidateVaultV1_rel e a id w w' hn h).1⟩
 
@@ -365,7 +365,8 @@ theorem v2_witness_seized :
 
 /-- **A borrow step does nothing or everything, and hands over exactly what was pledged**: a successful
 `LiquidateIndividualBorrow` either leaves the state unchanged or it addressed an unflagged borrow `b`, unsafe after the accrual
-(ratio `r`), with the kill switch off, the lend app whitelisted with Dutch auctions, and produced `borrowSeized e w id b r`:
+(ratio `r`), with the kill switch off, the lend app whitelisted with Dutch or English auctions activated, and produced
+`borrowSeized e w id b r` (the auction is Dutch iff Dutch is activated — `auction_type_follows_whitelisting`):
 * exactly `b.amountIn` (the pledged cTokens, 1:1 in the underlying) of the collateral asset moves pool → auction account, the
   same amount of cTokens is burnt from the pool account, and the pool held at least that much of both;
 * locked vault: collateral `b.amountIn`, `DebtToken` = the principal (NOT the accrued interest), `FeeToBeCollected` =
@@ -375,7 +376,8 @@ theorem v2_witness_seized :
   `TotalLend(pool, assetIn) −= amountIn`, lend position `−= amountIn` (deleted when nothing is left). -/
 theorem borrow_step_atomic (e : Env) (id : Nat) (w w' : World) (h : liquidateBorrowV2 e id w = some w') :
     w' = w ∨ ∃ b r, w.borrows.find? (·.id == id) = some b ∧ b.liquidated = false ∧ borrowRatio e b = some r ∧
-      borrowUnsafe e b = true ∧ (e.app b.app).kill = false ∧ (e.app b.app).wl2 = true ∧ (e.app b.app).dutch2 = true ∧
+      borrowUnsafe e b = true ∧ (e.app b.app).kill = false ∧ (e.app b.app).wl2 = true ∧
+      ((e.app b.app).dutch2 = true ∨ (e.app b.app).english2 = true) ∧
       b.amountIn ≤ w.poolBal.get b.assetIn ∧ b.amountIn ≤ w.poolBal.get b.cAsset ∧ w' = borrowSeized e w id b r ∧
       w'.auctionBal.get b.assetIn = w.auctionBal.get b.assetIn + b.amountIn ∧
       w'.totalBorrowed.get (statKey b.outPool b.assetOut) = w.totalBorrowed.get (statKey b.outPool b.assetOut) - b.principal ∧
